@@ -148,6 +148,10 @@ def stepRegistry (op : String) (args : List String) : Option String :=
       | .done (.ok f) => s!"outcome=ok:{f.tag}"
       | .done .timedOut => "outcome=timedOut"
       | pc => s!"outcome={showPc pc}")
+  -- a positive timeout at or below the header's resolution against a silent peer (C13): by
+  -- c13_positive_timeout_is_a_deadline it is a deadline like any other: a Request times out; a Oneway whose write the
+  -- transport accepts (adapter, NATS) returns ok, over HTTP it waits for the response and times out
+  | "rqt", [tr, _ns, ow] => pure (if ow == "1" && tr != "http" then "outcome=ok" else "outcome=timedOut")
   -- free-running registry (C06): by c06_reader_never_blocks no interleaving stalls, every call is answered
   | "rfree", [k, iters] => do
     let k ← k.toNat?
